@@ -217,6 +217,7 @@ pub struct CacheFunc {
     mates: Option<MateScores>,
     pub contract_checked: AtomicU64, pub contract_unsound: AtomicU64,
     pub first_unsound: Mutex<Option<String>>,
+    pub leads: Mutex<Vec<Vec<(Pos, u8)>>>,
 }
 thread_local! {
     static NODES: RefCell<Vec<(u64, u8, i16, i16, bool)>> = const { RefCell::new(Vec::new()) };
@@ -225,7 +226,7 @@ thread_local! {
 impl CacheFunc {
     pub fn new() -> Arc<CacheFunc> { Self::build(None) }
     pub fn with_node_oracle(ms: &MateScores) -> Arc<CacheFunc> { Self::build(Some(MateScores { white_mated: ms.white_mated.clone(), black_mated: ms.black_mated.clone() })) }
-    fn build(mates: Option<MateScores>) -> Arc<CacheFunc> { Arc::new(CacheFunc { entries: Mutex::new(HashMap::new()), hits: AtomicU64::new(0), cross_identity_hits: AtomicU64::new(0), stores: AtomicU64::new(0), first: Mutex::new(None), mates, contract_checked: AtomicU64::new(0), contract_unsound: AtomicU64::new(0), first_unsound: Mutex::new(None) }) }
+    fn build(mates: Option<MateScores>) -> Arc<CacheFunc> { Arc::new(CacheFunc { entries: Mutex::new(HashMap::new()), hits: AtomicU64::new(0), cross_identity_hits: AtomicU64::new(0), stores: AtomicU64::new(0), first: Mutex::new(None), mates, contract_checked: AtomicU64::new(0), contract_unsound: AtomicU64::new(0), first_unsound: Mutex::new(None), leads: Mutex::new(vec![]) }) }
 
     /// Sound alpha-beta bounds: inside the window the value is exact; at or below alpha it is an upper bound,
     /// at or above beta a lower bound of the exact minimax value of the node.
@@ -241,9 +242,15 @@ impl CacheFunc {
         let exact = reference_minimax(&pos, depth as u32, ms, &mut leaves);
         self.contract_checked.fetch_add(1, Ordering::Relaxed);
         let v = value as i32;
-        let sound = if v > alpha && v < beta { v == exact } else if v <= alpha { exact <= v } else { exact >= v };
+        // the necessary condition for any sound alpha-beta variant (fail-soft, fail-hard, forward pruning with a
+        // safe margin): inside the window the value is exact; a value at or below alpha only claims "exact <= alpha",
+        // a value at or above beta only claims "exact >= beta"
+        let sound = if v > alpha && v < beta { v == exact } else if v <= alpha { exact <= alpha } else { exact >= beta };
         if !sound {
             self.contract_unsound.fetch_add(1, Ordering::Relaxed);
+            // keep the chain of ancestor positions as leads for root-level follow-up searches
+            let chain: Vec<(Pos, u8)> = NODE_POS.with(|n| n.borrow().iter().cloned().flatten().collect::<Vec<Pos>>()).into_iter().zip(NODES.with(|n| n.borrow().iter().map(|x| x.1).collect::<Vec<u8>>())).collect();
+            { let mut l = self.leads.lock().unwrap(); if l.len() < 3 { l.push(chain); } }
             let mut f = self.first_unsound.lock().unwrap();
             if f.is_none() { *f = Some(format!("{} of value {} for node {} (remaining depth {}, window ({}, {})) is not a sound bound: the node's exact minimax value is {}", how, v, pos.to_fen(), depth, alpha, beta, exact)); }
         }
@@ -368,11 +375,27 @@ fn c08_one(ctx: &Ctx, ms: &MateScores, c: &C08Case) {
     ctx.count("interior_nodes_checked_against_the_alpha_beta_bound_contract", cf.contract_checked.load(Ordering::Relaxed));
     let unsound = cf.contract_unsound.load(Ordering::Relaxed);
     ctx.count("unsound_interior_bounds_seen_(diagnostic)", unsound);
+    // an unsound interior bound is a lead, not a verdict: search the positions on the way down to it as roots of
+    // their own (brand-new context, one thread, as deep as they were from the horizon) and compare those answers
+    let leads = std::mem::take(&mut *cf.leads.lock().unwrap());
+    for chain in leads {
+        for (pos, d) in chain.into_iter().rev().take(4) {
+            if d == 0 || pos.legal_moves().is_empty() { continue; }
+            let tp = mon::pool_with_session(1, None);
+            let mut b = to_engine(&pos);
+            let mut sc = SearchContext::new(d);
+            if let Ok(Outcome { result: Ok(mv), score, .. }) = run_search(&mut b, &mut sc, &mut MoveGenerator::new(), &tp) {
+                ctx.count("follow_up_searches_from_leads", 1);
+                compare_search(ctx, ms, &pos, d, &mv, score, "fresh-context", json!({"pool": 1, "lead": "root taken from the path to an interior node whose stored bound was unsound"}), &CacheFunc::new());
+            }
+        }
+    }
     if unsound > 0 { if let Some(f) = cf.first_unsound.lock().unwrap().clone() { println!("NOTE property=C08 (diagnostic, not a verdict) {}", f); ctx.note(&f); } }
 }
 
 pub fn c08(o: &Opts) -> i32 {
-    let ctx = default_ctx("C08", o, 120.0, 800.0);
+    let ctx = default_ctx("C08", o, 150.0, 900.0);
+    let mut retro_cases: Vec<C08Case> = vec![];
     let q = ctx.quick();
     let ms = probe_mate_scores();
     let mut r = Rng::new(o.seed).fork(tag("c08"));
@@ -408,15 +431,16 @@ pub fn c08(o: &Opts) -> i32 {
     }
     {
         let mut tr = Rng::new(o.seed).fork(tag("c08-terminal-roots"));
-        let mut roots = gen::roots_before_terminal(&mut tr, if q { 60_000 } else { 600_000 }, true, if q { 60 } else { 600 });
-        roots.extend(gen::roots_before_terminal(&mut tr, if q { 20_000 } else { 200_000 }, false, if q { 30 } else { 300 }));
+        let mut roots = gen::roots_before_terminal(&mut tr, if q { 200_000 } else { 2_000_000 }, true, if q { 220 } else { 2500 });
+        roots.extend(gen::roots_before_terminal(&mut tr, if q { 30_000 } else { 300_000 }, false, if q { 40 } else { 400 }));
         let mut n = 0;
-        for p in roots {
+        for (p, dist) in roots {
             let k = p.legal_moves().len();
             if k < 2 || k > 40 { continue; }
             n += 1;
-            let depth = 2 + (n % 3) as u8;
-            cases.insert(0, C08Case::Fresh { p, depth: if k > 20 { depth.min(3) } else { depth }, pool: *tr.pick(&[1usize, 2, 4, 8]) });
+            // mostly exactly as deep as the terminal position is away (it then sits on the horizon), sometimes one more
+            let depth = if n % 6 == 0 { (dist + 1).min(4) } else { dist.max(1) };
+            retro_cases.push(C08Case::Fresh { p, depth: if k > 24 { depth.min(3) } else { depth }, pool: *tr.pick(&[1usize, 2, 4, 8]) });
         }
         ctx.count("roots_shortly_before_a_stalemate_or_mate_of_a_side_with_pieces", n as u64);
     }
@@ -448,7 +472,9 @@ pub fn c08(o: &Opts) -> i32 {
             let depth = if n <= 7 && br.chance(0.5) { 4 } else { 3 };
             bulk.push(C08Case::Fresh { p, depth, pool: *br.pick(&[1usize, 1, 2, 3]) });
         }
-        par::for_each(&bulk, par::threads(), |_i, c| { if ctx.budget_used() < 0.45 { c08_one(&ctx, &ms, c); ctx.count("bulk_small_searches", 1); } },
+        par::for_each(&bulk, par::threads(), |_i, c| { if ctx.budget_used() < 0.33 { c08_one(&ctx, &ms, c); ctx.count("bulk_small_searches", 1); } },
+            |_i, _c, msg| ctx.violation(&format!("c08:panic:{}", par::last_panic_location()), &format!("panic around a search: {}", msg), json!({})));
+        par::for_each(&retro_cases, par::threads().min(12), |_i, c| { if ctx.budget_used() < 0.6 { c08_one(&ctx, &ms, c); ctx.count("searches_from_roots_before_a_terminal_position", 1); } },
             |_i, _c, msg| ctx.violation(&format!("c08:panic:{}", par::last_panic_location()), &format!("panic around a search: {}", msg), json!({})));
     }
     par::for_each(&cases, 4, |_i, c| { if ctx.budget_used() < 0.9 { c08_one(&ctx, &ms, c) } else { ctx.count("cases_skipped_for_time_budget", 1) } },
